@@ -143,6 +143,12 @@ def gen_fault(rng, tree, cfg, kind=None):
 def gen_ordering_fault(rng, tree, nodes):
     c = []
     for path, node, parent, field, idx in nodes:
+        if isinstance(node, ast.Call) and node.args:
+            c.append((path, '_args', 'zz=1', 'keyword', 'prepend'))
+            c.append((path, '_args', '**zz', 'keyword', 'prepend'))
+            c.append((path, '_args', 'zz=1', 'keyword', 'insert0'))
+        if isinstance(node, ast.ClassDef) and node.bases:
+            c.append((path, '_bases', 'zz=1', 'keyword', 'prepend'))
         if isinstance(node, ast.Call) and node.keywords:
             c.append((path, 'args', 'x', 'expr', 'append'))
             c.append((path, 'args', '*x', 'expr', 'append'))
@@ -181,8 +187,11 @@ def gen_ordering_fault(rng, tree, nodes):
     if not c:
         return None
     path, field, text, cat, k = rng.choice(c)
-    return {'k': k, 'path': [list(p) for p in path], 'field': field, 'opts': {},
-            'code': {'form': rng.choice(['src', 'src', 'fst']), 'cat': cat, 'text': text}}
+    op = {'k': k, 'path': [list(p) for p in path], 'field': field, 'opts': {},
+          'code': {'form': rng.choice(['src', 'src', 'fst']), 'cat': cat, 'text': text}}
+    if k == 'insert0':
+        op.update(k=rng.choice(['insert', 'put_slice']), idx=0, start=0, stop=0, one=rng.choice([True, False]))
+    return op
 
 
 def _is_star(node):
